@@ -13,7 +13,7 @@ THEOREMS = ['Pk.C17.C17_weight_only_exact', 'Pk.C17.C17_weight_only_unit', 'Pk.C
             'Pk.C17.C17_gaussian_kernel_mean', 'PkLA.rff_gaussian_mean', 'Pk.C17.C17_cauchy_kernel_mean_1d',
             'Pk.C17.C17_cauchy_kernel_mean', 'Pk.C17.C17_laplacian_kernel_mean', 'Pk.C17.C17_offset_unbiased',
             'Pk.C17.C17_concentration', 'Pk.C17.C17_concentration_gaussian', 'Pk.C17.C17_concentration_cauchy',
-            'Pk.C17.C17_concentration_laplacian', 'Pk.C17.C17_offset_concentration']
+            'Pk.C17.C17_concentration_laplacian', 'Pk.C17.C17_offset_concentration', 'Pk.C17.C17_offset_hoeffding']
 LEVEL = 'other'
 KERNELS = ['gaussian', 'laplacian', 'cauchy']
 
@@ -298,6 +298,269 @@ def special_kernel_estimate(ctx, n_cases):
                              case, {'part': 'special batch', 'batch': kind, 'route': name, 'what': 'kernel estimate'})
 
 
+BUFFER_LAYOUTS = ['C', 'C', 'C', 'F', 'column-slice view', 'row-slice view', 'strided rows', 'int64']
+BUFFER_STEPS = ['refill', 'refill', 'refill', 'refill one row', 'refill one entry', 'negate in place', 'unchanged',
+                'another array in between', 'shifted copy of itself']
+
+
+def make_buffer(layout, m, w, rs):
+    """an m x w array of the requested memory layout (the SAME object is handed to every call of a sequence)"""
+    if layout == 'F':
+        return np.asfortranarray(np.zeros((m, w)))
+    if layout == 'column-slice view':
+        return np.zeros((m, w + 3))[:, 1:1 + w]
+    if layout == 'row-slice view':
+        return np.zeros((m + 4, w))[2:2 + m]
+    if layout == 'strided rows':
+        return np.zeros((2 * m, w))[::2]
+    if layout == 'int64':
+        return np.zeros((m, w), dtype='int64')
+    return np.zeros((m, w))
+
+
+def fresh_content(buf, rs, lo=0):
+    """new values for the columns lo.. of the buffer (integers for an integer buffer)"""
+    shp = (buf.shape[0], buf.shape[1] - lo)
+    if buf.dtype.kind == 'i':
+        return rs.randint(-3, 4, shp)
+    return rs.uniform(-1.5, 1.5, shp)
+
+
+def buffer_reuse(ctx, n_cases):
+    """OBJECT-IDENTITY forms: ONE ndarray object used by the caller as a work buffer. It is handed to transform / lift / lift_input of
+    one fitted estimator (RandomFourierKernelApprox, KernelApproxLiftingFn with / without episode feature, a KoopmanPipeline around
+    it) several times in a row; between the calls its contents are overwritten IN PLACE (whole, one row, one entry, negated, left
+    unchanged, another array lifted in between) and the matrices returned earlier are sometimes edited in place by the caller.
+    Every answer must be [x, u, z([x; u])] of the contents AT THAT CALL, z computed here from random_weights_ / random_offsets_;
+    the call must not write into the buffer, and a matrix returned earlier must not change during a later call."""
+    rng = ctx.rng
+    for i in range(n_cases):
+        nx = rng.randint(1, 3)
+        nu = rng.choice([0, 1, 1, 2])
+        kernel, method = rng.choice(KERNELS), rng.choice(['weight_offset', 'weight_only'])
+        shape = rng.choice([0.25, 1.0, 2.5])
+        D = rng.choice([1, 2, 5, 16, 64])
+        seed_type, seed = rng.choice(['int', 'instance']), rng.randint(0, 10 ** 6)
+        target = rng.choice(['estimator', 'estimator', 'lifting function', 'lifting function', 'lifting function', 'pipeline'])
+        fit_ep = target != 'estimator' and rng.random() < 0.4
+        layout = rng.choice(BUFFER_LAYOUTS)
+        fit_on_buffer = rng.random() < 0.3
+        rs = np.random.RandomState(rng.randint(0, 2 ** 31 - 1))
+        m = rng.randint(1, 6) if not fit_on_buffer else rng.randint(2, 6)
+        w = nx + nu
+        lo = 1 if fit_ep else 0
+        cfg = {'nx': nx, 'nu': nu, 'kernel': kernel, 'method': method, 'shape': shape, 'D': D, 'seed_kind': seed_type, 'seed': seed,
+               'object': target, 'fitted_with_episode_feature': fit_ep, 'buffer_layout': layout, 'rows': m,
+               'fitted_on_the_buffer': fit_on_buffer}
+
+        def make_ka():
+            return pykoop.RandomFourierKernelApprox(kernel_or_ft=kernel, n_components=D, shape=shape, method=method,
+                                                    random_state=seed if seed_type == 'int' else np.random.RandomState(seed))
+
+        buf = make_buffer(layout, m, w + lo, rs)
+        if fit_ep:
+            # episode column: one episode, or (sorted) several
+            ep = np.sort(rs.randint(0, 2, m)) if rng.random() < 0.5 else np.zeros(m)
+            buf[:, 0] = ep
+        buf[:, lo:] = fresh_content(buf, rs, lo)
+        Xtr = buf if fit_on_buffer else np.hstack((np.zeros((4, lo)), rs.uniform(-1, 1, (4, w))))
+        if target == 'estimator':
+            obj = make_ka().fit(Xtr)
+            ka_of = lambda o: o
+        elif target == 'lifting function':
+            obj = pykoop.KernelApproxLiftingFn(kernel_approx=make_ka()).fit(Xtr, n_inputs=nu, episode_feature=fit_ep)
+            ka_of = lambda o: o.kernel_approx_
+        else:
+            obj = pykoop.KoopmanPipeline(lifting_functions=[('ka', pykoop.KernelApproxLiftingFn(kernel_approx=make_ka()))],
+                                         regressor=None)
+            obj.fit_transformers(Xtr, n_inputs=nu, episode_feature=fit_ep)
+            ka_of = lambda o: o.lifting_functions_[0][1].kernel_approx_
+        single_ep = (not fit_ep) or len(set(buf[:, 0].tolist())) == 1
+        # routes: (name, call on the buffer, which block comes back, episode column in the answer)
+        if target == 'estimator':
+            routes = [('RandomFourierKernelApprox.transform', lambda b: obj.transform(b), 'features', False)]
+        elif target == 'lifting function' and not fit_ep:
+            routes = [('transform', lambda b: obj.transform(b), 'full', False),
+                      ('transform', lambda b: obj.transform(b), 'full', False),
+                      ('lift(default episode feature)', lambda b: obj.lift(b), 'full', False),
+                      ('lift(episode_feature=False)', lambda b: obj.lift(b, episode_feature=False), 'full', False),
+                      ('lift_input(episode_feature=False)', lambda b: obj.lift_input(b, episode_feature=False), 'input', False),
+                      ('kernel_approx_.transform', lambda b: obj.kernel_approx_.transform(b), 'features', False)]
+        elif target == 'lifting function':
+            routes = [('transform', lambda b: obj.transform(b), 'full', True),
+                      ('lift(episode_feature=True)', lambda b: obj.lift(b, episode_feature=True), 'full', True),
+                      ('lift_input(default episode feature)', lambda b: obj.lift_input(b), 'input', True)]
+            if single_ep:
+                routes.append(('lift(episode_feature=False) of the data columns of the buffer',
+                               lambda b: obj.lift(b[:, 1:], episode_feature=False), 'full', False))
+                routes.append(('kernel_approx_.transform of the data columns of the buffer',
+                               lambda b: obj.kernel_approx_.transform(b[:, 1:]), 'features', False))
+        else:
+            routes = [('KoopmanPipeline.lift', lambda b: obj.lift(b, episode_feature=fit_ep), 'full', fit_ep),
+                      ('KoopmanPipeline.lift_input', lambda b: obj.lift_input(b, episode_feature=fit_ep), 'input', fit_ep)]
+        steps = ['first call'] + [rng.choice(BUFFER_STEPS) for _ in range(rng.randint(2, 5))]
+        if 'refill' not in steps:
+            steps[rng.randint(1, len(steps) - 1)] = 'refill'
+        kept = []            # (matrix returned earlier - the caller's reference, what it held when the caller last looked)
+        history = []
+        failed = False
+        for k, step in enumerate(steps):
+            if step in ('refill', 'another array in between'):
+                buf[:, lo:] = fresh_content(buf, rs, lo)
+            elif step == 'refill one row':
+                r = rng.randrange(m)
+                buf[r, lo:] = fresh_content(buf, rs, lo)[r]
+            elif step == 'refill one entry':
+                r, c = rng.randrange(m), lo + rng.randrange(w)
+                buf[r, c] = fresh_content(buf, rs, lo)[r, c - lo] + (1 if buf.dtype.kind == 'i' else 0.25)
+            elif step == 'negate in place':
+                buf[:, lo:] *= -1
+            elif step == 'shifted copy of itself':
+                buf[:, lo:] = np.roll(buf[:, lo:], 1, axis=0) + (1 if buf.dtype.kind == 'i' else 0.5)
+            name, call, what, has_ep = routes[rng.randrange(len(routes))]
+            if step == 'another array in between':
+                other = np.array(buf, dtype=float)
+                other[:, lo:] = rs.uniform(-1.5, 1.5, (m, w))
+                call(other)
+            before = np.array(buf)
+            got_ref = call(buf)
+            got = np.array(got_ref, dtype=float)
+            Zf = np.asarray(before[:, lo:], dtype=float)
+            history.append({'step': step, 'route': name, 'contents': before.tolist()})
+            ctx.count('buffer reuse: ' + step)
+            ctx.count('buffer reuse: layout ' + layout)
+            case = dict(cfg, sequence=history, failing_step=k)
+            ctx.record_case(dict(cfg, step=step, route=name.split('(')[0]), True)
+            tags = {'part': 'buffer reuse', 'step': step, 'route': name.split('(')[0], 'object': target}
+            ka = ka_of(obj)
+            W, b = ka.random_weights_, ka.random_offsets_
+            if W.shape != (w, D) or (method == 'weight_offset' and np.shape(b) != (D,)):
+                ctx.mismatch('fitted weights / offsets of the kernel approximation have unexpected shapes', case,
+                             [list(np.shape(W)), list(np.shape(b))], [[w, D], [D]])
+                break
+            feats, amp = features_direct(W, b, shape, method, Zf)
+            if what == 'features':
+                want, lead = feats, 0
+            elif what == 'input':
+                want, lead = (np.hstack((Zf[:, nx:], feats)), nu) if nu else (np.zeros((m, 0)), 0)
+            else:
+                want, lead = np.hstack((Zf, feats)), w
+            if has_ep:
+                want, lead = np.hstack((np.asarray(before[:, :1], dtype=float), want)), lead + 1
+            where = (f'call {k + 1} of {len(steps)} on the same {layout} buffer ({target}, {kernel}/{method}, shape={shape}, D={D}, nx={nx}, '
+                     f'nu={nu}, {m} rows; since the previous call: {step}), {name}')
+            if not np.array_equal(np.array(buf), before):
+                ctx.fail(f'{where}: the call wrote into the caller\'s array', case, tags)
+                failed = True
+                break
+            if got.shape != want.shape:
+                ctx.fail(f'{where}: shape {list(got.shape)}, expected {list(want.shape)}', case, tags)
+                failed = True
+                break
+            if not np.array_equal(got[:, :lead], want[:, :lead]):
+                ctx.fail(f'{where}: the leading columns are not the state / input that are in the buffer at this call', case, tags)
+                failed = True
+                break
+            blk, wblk = got[:, lead:], want[:, lead:]
+            if blk.shape[1] and not np.allclose(blk, wblk, rtol=1e-10, atol=1e-13 * amp):
+                dev = float(np.max(np.abs(blk - wblk)))
+                stale = ''
+                for j, h in enumerate(history[:-1]):
+                    old = features_direct(W, b, shape, method, np.asarray(h['contents'], dtype=float)[:, lo:])[0]
+                    if old.shape == wblk.shape and np.allclose(blk, old, rtol=1e-10, atol=1e-13 * amp):
+                        stale = f'; they ARE the features of the contents at call {j + 1}'
+                        break
+                ctx.fail(f'{where}: the features returned are not the random Fourier features of the points that are in the buffer at this '
+                         f'call, computed from random_weights_ / random_offsets_ (max deviation {dev:.3g}){stale}',
+                         dict(case, got=blk.tolist(), expected=wblk.tolist()), tags)
+                failed = True
+                break
+            if method == 'weight_only' and blk.shape[1] and not np.allclose(np.sum(blk ** 2, axis=1), 1.0, rtol=1e-12):
+                ctx.fail(f'{where}: weight_only feature vectors do not have unit norm', case, tags)
+                failed = True
+                break
+            # the caller may do what it likes with the matrix it received
+            if isinstance(got_ref, np.ndarray) and got_ref.size and got_ref.flags.writeable and rng.random() < 0.5:
+                edit = rng.choice(['zeroed', 'doubled', 'one entry set'])
+                if edit == 'zeroed':
+                    got_ref[:] = 0.0
+                elif edit == 'doubled':
+                    got_ref *= 2.0
+                else:
+                    got_ref[rng.randrange(got_ref.shape[0]), got_ref.shape[1] - 1] = 7.0
+                history[-1]['caller_then'] = 'returned matrix ' + edit + ' in place'
+                ctx.count('buffer reuse: returned matrix edited in place before the next call')
+                if not np.array_equal(np.array(buf), before):
+                    ctx.fail(f'{where}: the returned matrix shares memory with the caller\'s array (editing it changed the buffer)', case, tags)
+                    failed = True
+                    break
+            if isinstance(got_ref, np.ndarray):
+                kept.append((k, got_ref, np.array(got_ref)))
+        if not failed:
+            for k, ref, snap in kept:
+                if ref.shape[1] and not np.array_equal(ref, snap, equal_nan=True):
+                    ctx.fail(f'the matrix returned by call {k + 1} on a re-used {layout} buffer ({target}, {kernel}/{method}, D={D}) changed '
+                             f'during later calls / refills of the buffer: answers given earlier are no longer the features of the points '
+                             f'they were computed for', dict(cfg, sequence=history, changed_answer_of_step=k),
+                             {'part': 'buffer reuse', 'step': 'earlier answer kept', 'object': target})
+                    break
+
+
+def buffer_kernel_estimate(ctx, n_cases):
+    """the property itself across two fills of one buffer: batch A is lifted, the buffer is overwritten in place with batch B and
+    lifted again; <z(a), z(b)> must be within 6 / sqrt(D) of the named kernel of a - b for every a in A, b in B (independent draws:
+    RandomState seeds, or weight_only), and also within each batch"""
+    rng = ctx.rng
+    for i in range(n_cases):
+        nx, nu = rng.randint(1, 2), rng.randint(0, 2)
+        kernel = KERNELS[i % 3]
+        method = ('weight_offset', 'weight_only')[(i // 3) % 2]
+        shape = rng.choice([0.25, 1.0, 2.0])
+        D = 1024
+        seed = rng.randint(0, 10 ** 6)
+        seed_type = 'instance' if method == 'weight_offset' else rng.choice(['int', 'instance'])
+        rs = np.random.RandomState(rng.randint(0, 2 ** 31 - 1))
+        m, w = rng.randint(2, 6), nx + nu
+        ka = pykoop.RandomFourierKernelApprox(kernel_or_ft=kernel, n_components=D, shape=shape, method=method,
+                                              random_state=seed if seed_type == 'int' else np.random.RandomState(seed))
+        route = rng.choice(['RandomFourierKernelApprox.transform', 'KernelApproxLiftingFn.transform', 'KernelApproxLiftingFn.lift'])
+        buf = np.zeros((m, w))
+        A = rs.uniform(-0.8, 0.8, (m, w))
+        B = A[::-1] * rs.uniform(0.2, 1.0) + rs.uniform(-0.9, 0.9, w)        # clearly different points, same box size
+        buf[:] = A
+        if route == 'RandomFourierKernelApprox.transform':
+            ka.fit(buf if rng.random() < 0.5 else rs.uniform(-1, 1, (3, w)))
+            call = lambda: np.array(ka.transform(buf), dtype=float)
+        else:
+            lf = pykoop.KernelApproxLiftingFn(kernel_approx=ka).fit(buf if m >= 2 and rng.random() < 0.5 else rs.uniform(-1, 1, (3, w)),
+                                                                    n_inputs=nu, episode_feature=False)
+            if route.endswith('transform'):
+                call = lambda: np.array(lf.transform(buf), dtype=float)[:, w:]
+            else:
+                call = lambda: np.array(lf.lift(buf, episode_feature=False), dtype=float)[:, w:]
+        Fa = call()
+        buf[:] = B
+        Fb = call()
+        buf[:] = A
+        Fa2 = call()
+        case = {'kernel': kernel, 'method': method, 'shape': shape, 'D': D, 'seed': seed, 'seed_kind': seed_type, 'nx': nx, 'nu': nu,
+                'route': route, 'first_fill': A.tolist(), 'second_fill': B.tolist(), 'third_fill': 'the first again'}
+        ctx.count('buffer reuse: kernel estimate across two fills')
+        ctx.record_case({k: v for k, v in case.items() if not k.endswith('_fill')}, True)
+        bound = 6 / np.sqrt(D)
+        for label, F, G, P, Q in (('first and second fill', Fa, Fb, A, B), ('second fill', Fb, Fb, B, B),
+                                  ('second and third fill', Fb, Fa2, B, A)):
+            Kt = np.array([[kernel_value(kernel, shape, p - q) for q in Q] for p in P])
+            K = F @ G.T if F.shape[1:] == G.shape[1:] else np.zeros((0, 0))
+            err = float(np.max(np.abs(K - Kt))) if K.shape == Kt.shape else float('inf')
+            if err > bound:
+                ctx.fail(f'{route} on one buffer filled in place with batch A, then B, then A again ({kernel}/{method}, shape={shape}, D={D}, '
+                         f'{m} rows of {w}): inner products of the features of the {label} are {err:.3g} away from the kernel of the '
+                         f'differences of the points (bound {bound:.3g})', dict(case, pair=label),
+                         {'part': 'buffer reuse', 'what': 'kernel estimate', 'route': route})
+                break
+
+
 def run(ctx):
     ctx.rule = ('(a) fitted RandomFourierKernelApprox (kernels x methods x shapes x 1..4 features x 1..16 components x int / '
                 'RandomState seeds): transform vs the Lean Float evaluation of the feature-map formula given the fitted '
@@ -308,13 +571,22 @@ def run(ctx):
                 'whose input columns are exactly zero (unforced episode, single row with u = 0, -0.0, one unforced episode among forced ones), '
                 'all-zero / repeated / integer-valued rows, constant or tiny inputs: transform, lift, lift_input, lift_state, fit_transform '
                 'and a KoopmanPipeline around it must return [x, u, z([x; u])] with z computed here from random_weights_ / random_offsets_ '
-                '(rel 1e-10), unit norm for weight_only, and with D = 1024 the inner products of the appended block within 6/sqrt(D) of the kernel')
+                '(rel 1e-10), unit norm for weight_only, and with D = 1024 the inner products of the appended block within 6/sqrt(D) of the kernel; '
+                '(f) object-identity forms: ONE ndarray (C / Fortran order, column- / row-slice and strided views, int64) handed 3..6 times in a row to '
+                'transform / lift / lift_input / kernel_approx_.transform of one fitted RandomFourierKernelApprox, KernelApproxLiftingFn (with / '
+                'without episode feature, also fitted on the buffer itself) or KoopmanPipeline, its contents overwritten IN PLACE between the calls '
+                '(whole, one row, one entry, negated, unchanged, another array lifted in between) and the returned matrices edited in place by the '
+                'caller: every answer must be [x, u, z([x; u])] of the contents AT THAT CALL (z computed here from random_weights_ / random_offsets_, '
+                'rel 1e-10), the call must not write into the buffer, answers returned earlier must not change later; with D = 1024 and the buffer '
+                'filled with batch A, then B, then A, the inner products <z(a), z(b)> are within 6/sqrt(D) of the kernel of a - b')
     ctx.explanation = ('level "other": exact identities, layout and the stream model are theorems (C17_*); the feature-map formula '
                        'is tied to the code by a Float correspondence; the kernel means (all three named kernels, any dimension), '
                        'unbiasedness over the offset and the O(1/sqrt(D)) concentration are theorems GIVEN independent draws from '
                        'the named distributions; that scipy samplers deliver those is trusted / checked statistically only; '
                        'that the lifting function appends the features of [x; u] for EVERY batch (no branch on the values in the '
-                       'batch, e.g. an input that is identically zero) is checked by a direct oracle on special-valued batches')
+                       'batch, e.g. an input that is identically zero) is checked by a direct oracle on special-valued batches; that the '
+                       'answer depends on the VALUES handed over at the call and on nothing remembered about the array object (a caller '
+                       're-using one array as a work buffer, or editing a returned matrix) is checked by a direct oracle on call sequences')
     ctx.assumptions = ['scipy.stats samplers have the named distributions (norm / cauchy / laplace / uniform)', 'successive draws are independent (false for integer seeds: finding F-rff)']
     ctx.proof_obligations('Properties.C17', THEOREMS)
     drv = ctx.get_driver()
@@ -403,6 +675,9 @@ def run(ctx):
     # data-value forms: special batches (zero input columns, zero / repeated rows, ...) through every route
     special_batches(ctx, ctx.n(40, 400))
     special_kernel_estimate(ctx, ctx.n(6, 36))
+    # object-identity forms: one ndarray re-used as a work buffer across calls on one fitted estimator
+    buffer_reuse(ctx, ctx.n(150, 1500))
+    buffer_kernel_estimate(ctx, ctx.n(12, 72))
     # statistical oracle
     n_seeds = 300 if ctx.tier == 'quick' else 1500
     for kernel in KERNELS:
